@@ -365,7 +365,7 @@ func ruleErrCh(c *Check, p *Prog, run *ssa.Function, roots []workerRoot) bool {
 
 // ruleLoopChecksContext (C13-R4).
 func ruleLoopChecksContext(c *Check, p *Prog, root *ssa.Function) {
-	g := BuildECFG(p, root, ExpandOpts{MaxDepth: 1})
+	g := BuildECFG(p, root, ExpandOpts{MaxDepth: 2, Stop: func(f *ssa.Function) bool { return false }})
 	c.NoteGraph(g)
 	// loop headers of the root function itself or of the single loop function it delegates to
 	type loopAt struct {
@@ -376,8 +376,8 @@ func ruleLoopChecksContext(c *Check, p *Prog, root *ssa.Function) {
 	var loops []loopAt
 	ctxs := map[*Ctx]bool{}
 	for _, n := range g.Nodes {
-		if g.Live()[n] && n.Ctx != nil && n.Ctx.Depth <= 1 {
-			ctxs[n.Ctx] = true
+		if g.Live()[n] && n.Ctx != nil && (n.Ctx.Depth <= 1 || (n.Ctx.Depth == 2 && n.Ctx.Parent != nil && n.Ctx.Parent.Fn != nil && n.Ctx.Parent.Fn.Synthetic != "")) {
+			ctxs[n.Ctx] = true // (depth 2 through a bound-method wrapper: "loop := m.lazyLoop; loop(ctx)")
 		}
 	}
 	for cx := range ctxs {
